@@ -74,6 +74,10 @@ CLAIMED = {
          'admits_iff / pyEq key-set theorems / read-only inertness over Server.step as theorems; real admin_connect on generated payloads; '
          'instrumented and plain servers run the same scenarios and application-visible observations are diffed.',
          TB + 'transparency of the wrappers is decided by the side-by-side run, not by a theorem.', '§5 C18'),
+ 'C19': ('proof', 'Lean 4 invariants over ALL interleavings of a statement-level model of SimpleClient/AsyncSimpleClient; exhaustive/sampled schedules of the real classes under a deterministic scheduler',
+         'fifo_once, no_lost_wakeup, timeout/disconnected clauses, emit_waits, deadlock characterisation as theorems for every schedule; '
+         'the real classes run under a deterministic scheduler with pre-emption at every Event/buffer access and are compared with the model token by token.',
+         TB + 'each shared access atomic; single producer; CPython>=3.12 wait_for semantics; two receive() re-test defects are known findings.', '§5 C19'),
  'C20': ('proof', 'Lean 4: serial-gate theorem for all schedules of the scheduler model + machine-checked race counter-examples; exhaustive interleavings of the real threaded Server under a deterministic scheduler',
          'gate_serial_partial for every schedule without overlapping check..mark windows; race_double_call / race_raise_residue decided; '
          'all interleavings of 2 (quick) / 3 (thorough) terminating actions at manager/transport-call granularity on the real Server, each mapped to the model.',
